@@ -2,8 +2,10 @@
 """Regenerates /verif/MANIFEST.json from the table below."""
 import json, os
 VERIF = os.path.dirname(os.path.dirname(os.path.abspath(__file__)))
-HOOK_COMMITS = ["2a964bf", "fa83b6a"]
-FIX_COMMITS = ["856f863", "44eea87", "8d8cd8f", "c6ea88a", "2faf33b", "0d420de", "4332f80"]
+HOOK_COMMITS = ["2a964bf", "fa83b6a", "22f8253"]
+FIX_COMMITS = ["856f863", "44eea87", "8d8cd8f", "c6ea88a", "2faf33b", "0d420de", "4332f80", "9bebd46", "9e0bb9e", "1bf31d6", "ab48742", "d06c1bd", "4f39ea6"]
+
+POOLNOTE = 'Trusted: Coq kernel+VM; hand model of pool/{mod,checkout,idle,key,service}.rs + connector staging with one atomic step per operation (exact for a current-thread runtime; interleavings inside one Checkout::poll on a multi-thread runtime are R1); oracles O1 (hyper SendRequest readiness, scripted by the harness connection), O2 tokio oneshot, O3 tokio current-thread FIFO run queue, O7 http::Uri; hook verif_pool_snapshot (read-only). Every pool property compares the FULL observation (events, snapshot, woken futures) of model and implementation after every operation. No axioms.'
 
 CLAIMS = {
  "C16": dict(
@@ -38,7 +40,13 @@ CLAIMS = {
   text="Coq theorems for every scheme string, host form, certificate situation, ALPN offer and injected fault: the model of TlsTransport/TlsTransportWrapper/TlsConnectionFuture satisfies the C12 monitor (https/wss with TLS configured: never a plain stream, a stream only after a successful handshake with SNI = URI host (none for IP literals), failures are errors never a fallback, nothing the application writes is visible in the clear; other schemes unwrapped; total). Tied to the real TlsTransport<DuplexTransport> against a recording peer running a real rustls server with matching / wrong-name / untrusted certificates and peer faults.",
   note="Trusted: Coq kernel+VM; hand model; oracle O6/R3: rustls (name classification taken from the real crate by the harness; that a completed handshake implies encryption + verified certificate is rustls's own guarantee); fixtures minted with openssl. Genuine defects D9, D12 fixed (4332f80, c6ea88a). No axioms.",
   technique="Coq proof (case analysis over the connect state machine, monitor = spec) + differential correspondence with a real TLS peer", ref="DESIGN.md 4/C12, 3.6"),
+
+ "C15": dict(
+  text="Coq theorem for EVERY pool configuration and EVERY finite operation history (issue/poll/cancel/finish/upgrade/dial outcomes/ready/close/background/tick, any length, any interleaving of any number of requests and origins): in every reachable state of the model every origin's idle list has at most max_idle_per_host entries (c15_bound), hence the executable monitor accepts every model trace (c15_monitor). Tied to the real ConnectionPoolService (public API, own transport/protocol/connection types, manual polling) by comparing events + pool snapshot + woken futures after every operation on seeded random histories with bursts, releases in any order, peers closing idle connections, max_idle in {0,1,2,3,8}; the monitor judges the implementation's own snapshots.",
+  note=POOLNOTE + " Genuine defect D7 (max_idle_per_host never enforced) found by this model and fixed (9bebd46).",
+  technique="Coq proof (inductive invariant over all operation sequences) + differential correspondence with state snapshots", ref="DESIGN.md 4/C15, 3.1, appendix A, 9"),
 }
+
 
 def main():
     props = [json.loads(l) for l in open(os.path.join(VERIF, "properties.jsonl"))]
